@@ -278,6 +278,9 @@ bool step(NifFile& nif, const OpSpec& op, const std::string& hist) {
 void finalChecks(NifFile& nif, const std::string& hist, bool defaultSaveToo) {
 	std::string vclass = verClass(nif.GetHeader().GetVersion());
 	R_phase("final:snapshot");
+	// saving finalizes the model first (Oblivion: a shape with tangents gets its "Tangent space" NiBinaryExtraData block back when an edit
+	// deleted it): the graph that is written, and that the reloaded one is compared with, is the finalized one
+	nif.FinalizeData();
 	GraphSnap g = snapshotGraph(nif);
 	R_phase("final:save:raw");
 	SaveTrace tr;
@@ -295,6 +298,7 @@ void finalChecks(NifFile& nif, const std::string& hist, bool defaultSaveToo) {
 		if (names.size() != h.types.size()) { R_viol("saved-header", vclass + "/type-duplicate", hist + ": saved type table has duplicate names"); return; }
 	}
 	R_phase("final:reload");
+	if (g_cfg.verbose) { std::ofstream f("/tmp/nifmon_c06.nif", std::ios::binary); f << out; }
 	NifFile re;
 	if (loadNif(re, out) != 0) { R_viol("reload", vclass + "/reload-fails", hist + ": the edited model does not reload"); return; }
 	GraphSnap g2 = snapshotGraph(re);
